@@ -2,7 +2,7 @@
    All theorems quantify over every channel capacity, every number of threads, every per-thread
    program of Send/Receive/Close/IsClosed calls and every schedule (list of thread indices) of the
    machine that interleaves the atomic steps of the wrapper (lock, flag read, chan operation, unlock). *)
-From V.C09 Require Import Spec Model ProofsA ProofsB ProofsC.
+From V.C09 Require Import Spec Model ProofsA ProofsB ProofsC ProofsD.
 
 (* "no combination of concurrent send, receive and close crashes or corrupts the process":
    neither `send on closed channel` (close landing between a send's check and its chan send, or while a
@@ -77,3 +77,40 @@ Print Assumptions after_close.
 Print Assumptions after_close_send_fails.
 Print Assumptions after_close_receive_drains.
 Print Assumptions closed_forever.
+
+(* "no combination of concurrent send, receive and close ... corrupts the process", the deadlock side.
+   A state in which NO thread can move (at script level: `fatal error: all goroutines are asleep`) has one of
+   two shapes, and neither involves a thread whose next call is Receive, IsClosed, Len or Cap being held by
+   the wrapper's lock: either every unfinished thread is a receiver starving on an empty, open channel with no
+   parked sender; or some sender is parked on the full channel and every unfinished thread is a parked sender,
+   a Close waiting for the parked senders, or a Send/Close queued behind that Close — nobody is left who
+   would receive.  Both are deadlocks of the channel program itself (a raw Go chan blocks or panics there). *)
+Theorem deadlock_shape : forall s, crashed s = false -> (forall i, step true s i = None) ->
+  (sendq (ch s) = [] /\ forall i t, nth_error (thr s) i = Some t -> unfinished t ->
+       pc t = Idle /\ cur t = Some ORecv /\ buf (ch s) = [] /\ cclosed (ch s) = false)
+  \/
+  (sendq (ch s) <> [] /\ forall i t, nth_error (thr s) i = Some t -> unfinished t ->
+       pc t = SParked \/ pc t = CWait \/ (pc t = Idle /\ (cur t = Some OSend \/ cur t = Some OClose))).
+Proof. exact deadlock_shape_l. Qed.
+Print Assumptions deadlock_shape.
+(* IsClosed / Len / Cap never wait; a Receive waits only for data *)
+Theorem queries_never_block : forall s i t o,
+  crashed s = false -> nth_error (thr s) i = Some t -> pc t = Idle -> cur t = Some o ->
+  (o = OIsClosed \/ o = OLen \/ o = OCap) -> step true s i <> None.
+Proof. exact queries_never_block_l. Qed.
+Theorem recv_waits_only_for_data : forall s i t,
+  crashed s = false -> nth_error (thr s) i = Some t -> pc t = Idle -> cur t = Some ORecv ->
+  step true s i = None -> buf (ch s) = [] /\ sendq (ch s) = [] /\ cclosed (ch s) = false.
+Proof. exact recv_waits_only_for_data_l. Qed.
+Print Assumptions queries_never_block.
+Print Assumptions recv_waits_only_for_data.
+
+(* "send reports failure" after close, at the level of returned calls: once ANY Close call has returned,
+   every Send whose closed-check runs from then on returns false (in every reachable state) *)
+Theorem send_after_returned_close : forall c progs sched i t j tj,
+  let s := run true (init c progs) sched in
+  nth_error (thr s) j = Some tj -> In RClosed (results tj) ->
+  nth_error (thr s) i = Some t -> pc t = SLocked ->
+  step true s i = Some (set_thr s i (goto t (SUnlock false))).
+Proof. exact send_after_returned_close_l. Qed.
+Print Assumptions send_after_returned_close.
